@@ -164,7 +164,23 @@ func (b *sqlite3KV) mutate(k string, f func(bs []byte) ([]byte, error)) error {
 	if err := sqlResError(res); err != nil {
 		return err
 	}
-	return tx.Commit()
+	return sqlite3CommitTx(tx)
+}
+
+// sqlite3CommitTx commits the transaction of a mutate. When sqlite refuses
+// the commit (SQLITE_BUSY while another connection still reads) it keeps the
+// transaction open, but database/sql regards a transaction as finished as
+// soon as Commit has been called, so that the deferred Rollback would do
+// nothing and the connection would go back to the pool inside the
+// transaction, holding its write lock. The commit is therefore issued as a
+// statement: if it is refused, the transaction can still be rolled back.
+func sqlite3CommitTx(tx *sqlx.Tx) error {
+	if _, err := tx.X(`commit`); err != nil {
+		return err
+	}
+	// The transaction is over; this only hands the connection back.
+	tx.Rollback()
+	return nil
 }
 
 func (b *sqlite3KV) count() (int64, error) {
